@@ -76,7 +76,15 @@ fn perturb(t: &mut Tape, p: &Program) -> Option<(Program, String)> {
     let c_list = cand(&|i| matches!(&olds[i].kind, EKind::List(xs) if !xs.is_empty()));
     let c_tuple = cand(&|i| matches!(&olds[i].kind, EKind::TupleIdx(..)) || matches!(&olds[i].kind, EKind::Tuple(xs) if !xs.is_empty()));
     let c_op = cand(&|i| matches!(&olds[i].kind, EKind::Bin(..)));
-    let pools: [(&Vec<usize>, u32); 10] = [
+    // a sub-expression of a global's initialiser that has the global's own type (outside function literals)
+    let c_selfinit = cand(&|i| {
+        let c = &sites[i].ctx;
+        c.closure_depth == 0
+            && !c.global_is_start
+            && matches!(c.placement, plant::Placement::GlobalInit | plant::Placement::Operand | plant::Placement::Element | plant::Placement::Argument | plant::Placement::FieldInit)
+            && p.globals.iter().any(|g| g.var == c.global && !matches!(g.value.kind, EKind::Lambda(_)) && p.var(g.var).ty == olds[i].ty)
+    });
+    let pools: [(&Vec<usize>, u32); 11] = [
         (&c_any, 20),
         (&c_var, 16),
         (&c_blob, 45),
@@ -87,6 +95,7 @@ fn perturb(t: &mut Tape, p: &Program) -> Option<(Program, String)> {
         (&c_list, 6),
         (&c_tuple, 8),
         (&c_op, 14),
+        (&c_selfinit, 10),
     ];
     let weights: Vec<u32> = pools.iter().map(|(c, w)| if c.is_empty() { 0 } else { *w }).collect();
     if weights.iter().all(|w| *w == 0) {
@@ -231,6 +240,10 @@ fn perturb(t: &mut Tape, p: &Program) -> Option<(Program, String)> {
             }
             _ => return None,
         },
+        10 => {
+            // the initialiser of a global reads the global itself: a read of an uninitialised variable unless rejected
+            (mark(e(claimed.clone(), EKind::Var(site.ctx.global))), "global-reads-itself-in-initialiser")
+        }
         _ => match &old.kind {
             EKind::TupleIdx(o, i) => (mark(e(claimed.clone(), EKind::TupleIdx(o.clone(), i + 3))), "tuple-index-out-of-range"),
             EKind::Tuple(xs) => {
